@@ -405,15 +405,20 @@ func (f Slice) startEndStep(size int) (start, end, step int) {
 	}
 	if start < 0 {
 		start = size + start
-	} else if size <= start {
+		if start < 0 {
+			start = 0
+		}
+	}
+	if size <= start {
+		if 0 < step || size == 0 { // nothing to select, same as Get
+			step = 0
+			return
+		}
 		start = size - 1
 	}
-	if start < 0 {
-		start = 0
-	}
 	if end < 0 {
-		end = size + end + 1
-		if end < 0 && step < 0 {
+		end = size + end
+		if end < -1 {
 			end = -1
 		}
 	} else if size < end {
